@@ -168,6 +168,7 @@ def dro_queries(ctx, seed):
     labels = None if r.random() < 0.5 else ['s%d' % i for i in range(S)]
     m = dro.Model(labels if labels else S)
     z = m.rvar(2)
+    ubar = m.rvar()
     decs = []
     for k in range(int(r.integers(1, 4))):
         shp = AR.rand_shape(r, maxrank=2)
@@ -189,7 +190,7 @@ def dro_queries(ctx, seed):
                             x[np.unravel_index(i, shp)].adapt(z[j])
         decs.append((x, shp, mask))
     fset = m.ambiguity()
-    fset.suppset(z >= -2, z <= 2)
+    fset.suppset(z >= -2, z <= 2, ubar >= -2, ubar <= 2)
     m.minsup(decs[0][0].sum() if decs[0][1] != () else decs[0][0], fset)
     with C.quiet():
         f = m.do_math()
@@ -243,6 +244,33 @@ def dro_queries(ctx, seed):
                 ordered = all(min(e) == sorted(min(e2) for e2 in x.event_adapt)[i] for i, e in enumerate(x.event_adapt))
                 ctx.hit('wrong-scenario-values:' + what, {"scenarios": bad, "got": [g.tolist() for g in got], "expected": [np.asarray(v).tolist() for v in ref],
                                                           "events_in_increasing_order": ordered}, c2)
+        if shp == () or len(shp) == 1:
+            # bi-affine expressions evaluated at plain and scenario-wise realisations, in both argument orders:
+            # (x * z[0] + u) (z.assign(Z, sw=True), u.assign(v)) must be one value per scenario
+            what = 'DecRoAffine.__call__(scenario-wise)'
+            ctx.search_cases += 1; ctx.evaluations += 1; ctx.count('query:' + what)
+            c2 = dict(case, query=what)
+            try:
+                Zs = r.integers(-2, 3, (S, 2)).astype(float); uv = float(r.integers(-2, 3))
+                expr = x * z[0] + 2.0 * ubar
+                import pandas as pd
+                with C.quiet():
+                    outs_ = [expr(z.assign(Zs, sw=True), ubar.assign(uv)), expr(ubar.assign(uv), z.assign(Zs, sw=True))]
+                for oi, out_ in enumerate(outs_):
+                    if not isinstance(out_, pd.Series) or len(out_) != S:
+                        ctx.hit('wrong-scenario-values:' + what, {"order": ['sw-first', 'plain-first'][oi], "returned": type(out_).__name__}, c2); break
+                    got = [np.asarray(v, dtype=float) for v in out_.values]
+                    ref = []
+                    for s in range(S):
+                        xs_ = exp_const[s] + ((np.where(np.isnan(exp_coef[s]), 0.0, exp_coef[s])) @ Zs[s]).reshape(shp) if mask.any() else exp_const[s]
+                        ref.append(np.asarray(xs_ * Zs[s][0] + 2.0 * uv))
+                    bad = [s for s in range(S) if got[s].shape != ref[s].shape or not np.allclose(got[s], ref[s])]
+                    if bad:
+                        ctx.hit('wrong-scenario-values:' + what, {"order": ['sw-first', 'plain-first'][oi], "scenarios": bad, "got": [g.tolist() for g in got], "expected": [v.tolist() for v in ref]}, c2); break
+            except TypeError as ex:
+                ctx.count('query:biaffine-call-unsupported:' + str(ex)[:40])
+            except Exception as ex:
+                ctx.hit('query-raises:' + what, {"error": type(ex).__name__ + ': ' + str(ex)[:200]}, c2)
         if mask.any():
             ctx.search_cases += 1; ctx.evaluations += 1; ctx.count('query:DecVar.get(rvar)')
             c2 = dict(case, query='DecVar.get(rvar)', mask=mask.astype(int).tolist()); ctx.nontriv(c2)
